@@ -12,6 +12,8 @@ CONSTANTS
   BigN = 0
   Acts = {"SetAlpha"}
   D = 6
+  NameFamily = "plain"
+  NameImpl = "asis"
 INVARIANT TypeOK
 INVARIANT C03_ExportSucceeds
 INVARIANT C03_ExportIsWinner
